@@ -285,6 +285,29 @@ PROPS["C14"] = {
     ],
 }
 
+PROPS["C16"] = {
+    "features": ["c16"],
+    "modules": ["c16_determinism::"],
+    "functions": [
+        "Selector::select of Best, Worst, Random, Tournament, Weighted/WeightedPair chains, Select wrapper",
+        "Mutator::mutate of WithRate (and Mutate wrapper), Recombinator::recombine of TwoPointXo / UniformXo",
+        "collection::Generator, Bitstring::random / random_with_probability, IndividualGenerator, OneOfCloning, Plushy GeneGenerator",
+        "Instruction::perform of every int/float/bool instruction family is a pure function of (instruction, state): STEP harnesses of C01 compare against a functional reference",
+    ],
+    "bounds": {
+        "quick": "self-composition: each operation is run twice from two clones of ONE symbolic 6-word tape (then all-ones): equal results (identity for selectors) and equal generator "
+                 "states (cursor and per-entry-point call counters); and twice on one operator value vs on fresh values (no hidden state); populations / genomes of 3 symbolic "
+                 "elements, symbolic rates / weights 0..=3",
+        "thorough": "same as quick",
+    },
+    "outside": "hash-map iteration order inside PushState (the RandomState is stubbed with fixed keys, so it is not quantified); Generation::serial_next / par_next (rand::rng(): see C09); "
+               "lexicase with >= 2 cases (C08), Plushy parsing (C05), UMAD on non-empty parents (solver budget, see C11); Push run_to_completion determinism beyond single steps "
+               "(single steps are functional by the C01 STEP lemma); streams longer than 6 words. A library function reaching thread-local / OS randomness is not a failed "
+               "assertion here but a harness that no longer compiles or links under Kani (reported as inconclusive, exit 2)",
+    "assumptions": ["TapeRng models 'equal generator states': same tape, same cursor, same call counters"],
+    "has_thorough_harnesses": False,
+}
+
 PROPS["C17"] = {
     "features": ["c17"],
     "modules": ["c17_erased::"],
@@ -326,6 +349,32 @@ PROPS["C18"] = {
                "that floor(2^32/N) accepted words per member means equal probability is Lemire's argument (paper step)",
     "assumptions": ["rand 0.9.0 UniformUsize / Choose algorithms define 'uniform variate'; version guard on Cargo.lock"],
     "cover_replay_tests": {},
+}
+
+PROPS["C19"] = {
+    "features": ["c19"],
+    "modules": ["c19_builder::"],
+    "name_filter": "^c19_",
+    "stubbing": True,
+    "needs_rand_090": False,
+    "caps_by_harness": [("_t_inputs_", (1500, 14))],
+    "functions": [
+        "the builder generated by #[push_macros::push_state(builder)] for push::push_vm::push_state::PushState: builder(), with_max_stack_size, with_int_max_size, "
+        "with_{int,bool,float}_values, with_program, with_no_program, with_int_input, with_instruction_step_limit, build",
+        "generated HasStack<T> impls (stack::<T>() / stack_mut::<T>()) for the four stacks of PushState; PushState::with_input; max_instruction_steps",
+    ],
+    "bounds": {
+        "quick": "value lists of lengths (0,0),(1,2),(3,1),(2,3) for int/bool plus one float with symbolic contents, each with a maximum that fits and one that does not: "
+                 "first supplied value on top, contents exact, Overflow exactly when a list is longer than the maximum; symbolic global / individual int maximum in both call orders: last one set wins; "
+                 "programs of 0,1,3 sentinel elements with a symbolic maximum: first element on top of exec, Overflow when too long; step limit stored; every accessor addresses the field of its element type. "
+                 "Lengths and the maximum are per-harness constants (fit / overflow instances), values symbolic",
+        "thorough": "as quick plus: two int inputs declared in both orders resolve to their own values (HashMap lookups: 25 min cap)",
+    },
+    "outside": "the compile-time clauses (incomplete builders cannot be built; a stack's size cannot change after values were loaded) are decided by rustc's type checker, not by a solver: NOT claimed; "
+               "state structs other than PushState (a second #[push_state] struct with foreign element types does not compile outside the push crate: E0119); value lists longer than 3; "
+               "HashMap iteration order (RandomState stubbed with fixed keys)",
+    "assumptions": ["std::hash::RandomState::new is stubbed with fixed SipHash keys (no OS entropy under Kani)"],
+    "unwindset_by_harness": [("^c19_", [(r"drop_glueNtNtNt\w+_4push7push_vm7program11PushProgramE", 1), (r"drop_glueSNtNtNt\w+_4push7push_vm7program11PushProgramE", 4)])],
 }
 
 
